@@ -295,12 +295,42 @@ def direct_writes(func):
     out = []
     if func.d.get("ctor"):
         return out      # constructors only write the object under construction; the store of that object is seen at the store site
+    # iterators / references into a member container: a store through one writes that member (`auto it = m.find(k); it->second = v`)
+    alias = {}
+    changed = True
+    while changed:
+        changed = False
+        for d in func.events("decl"):
+            v = d.get("var")
+            if not v or (v, d.get("vd")) in alias:
+                continue
+            ty = d.get("ctype") or d.get("type") or ""
+            if not (ty.rstrip().endswith("&") or "iterator" in ty or "_Node_iterator" in ty or ty.rstrip().endswith("*")):
+                continue
+            flds = [r[2:] for r in (d.get("refs") or []) if r.startswith("f:")]
+            init = d.get("init") or {}
+            src = flds[0] if flds else alias.get((init.get("root"), init.get("rootd")))
+            if src and not ty.replace("const ", "").startswith("const") and "const_iterator" not in ty and not re.match(r"^const\b.*[&*]$", ty.strip()):
+                alias[(v, d.get("vd"))] = src
+                changed = True
+
+    def alias_target(ref):
+        return alias.get(((ref or {}).get("root"), (ref or {}).get("rootd"))) if (ref or {}).get("root") else None
+
+    def mentions_alias(e, root):
+        pat = re.compile(r"\b%s\b" % re.escape(root))
+        return any(pat.search(a.get("t") or "") for a in e.get("args", []) or []) or bool(pat.search(((e.get("rhs") or {}).get("t") or "")))
     for e in func.events():
         k = e["k"]
         if k == "assign":
             f = e["lhs"].get("f")
-            if f:
+            if f and not f.startswith("std::"):
                 out.append((f, "assign", e))
+            else:
+                tgt = alias_target(e.get("lhs"))
+                if tgt and (e["lhs"].get("t") or "") != (e["lhs"].get("root") or ""):
+                    self_ = mentions_alias(e, e["lhs"]["root"]) or e.get("op") not in ("=",)
+                    out.append((tgt, "alias-assign-self" if self_ else "alias-assign", e))
         elif k == "incdec":
             f = (e.get("operand") or {}).get("f")
             if f:
@@ -324,7 +354,14 @@ def direct_writes(func):
                     if a_.get("f"):
                         out.append((a_["f"], "call:swap", e))
             f = rv.get("f")
-            if not f:
+            if not f or f.startswith("std::"):
+                # not a member of a program class: a store through an iterator / reference into a member container
+                tgt = alias_target(rv)
+                if tgt and (rv.get("t") or "") != (rv.get("root") or ""):
+                    if e.get("op") == "=":
+                        out.append((tgt, "alias-assign-self" if mentions_alias(e, rv["root"]) else "alias-assign", e))
+                    elif not _is_const_callee(e) and not (e.get("cfile") or "").startswith(facts_repo()) and is_stl_mutation(e):
+                        out.append((tgt, "call:" + name, e))
                 continue
             if e.get("op") == "=":
                 out.append((f, "whole", e))
